@@ -730,6 +730,23 @@ def run(ctx):
     if not replay_line:
         cases += [gen_large(r, ctx.tier, "rs") for _ in range(ctx.n(3, 10))] + [gen_large(r, ctx.tier, "rwp") for _ in range(ctx.n(1, 4))]
         cases += gen_chunk(ctx.gen("pf-chunk").r, ctx.tier)
+    # configuration of every object-level case from the MODEL of construction and hand-over (RsCtor.build, RsCfg.run): the
+    # expected per-call behaviour (ratio, seed, class, draws consumed) is the model's, cross-checked with the table above
+    obj_bad = []
+    seq_idx = [i for i, (l, m) in enumerate(cases) if m["op"] == "seq"]
+    cfg_out = vlib.run_driver(["seqcfg %d %s %d %d" % (cases[i][1]["kind"], cases[i][0].split()[3], int(cases[i][0].split()[1]), len(cases[i][1]["calls"])) for i in seq_idx]) if seq_idx else []
+    n_cfg = 0
+    for i, d in zip(seq_idx, cfg_out):
+        line, meta = cases[i]
+        dt = d.split()
+        want = (1 if meta["kind"] % 100 in PRIOR_KINDS else 0, hexd(meta["ratio"]) if meta["kind"] % 100 in PRIOR_KINDS else None, meta["seed"], len(meta["calls"]))
+        got = (int(dt[1]), dt[2] if int(dt[1]) else None, int(dt[3]), int(dt[4])) if dt[:1] == ["ok"] and len(dt) == 5 else None
+        if got != want:
+            obj_bad.append(("object-config-model", "configuration of the object in use (class, ratio, seed, draws): model %s, expected %s" % (got, want), line, d))
+        else:
+            n_cfg += 1
+            meta["ratio"] = unhex(dt[2]) if got[0] else meta["ratio"]
+            meta["seed"] = got[2]
     lines = [c[0] for c in cases]
     hout, logs = vlib.run_harness(binary, lines)
     n_inputs = len(cases)
@@ -786,6 +803,8 @@ def run(ctx):
                 stats["object_kind:" + kname] = stats.get("object_kind:" + kname, 0) + 1
         for kind, key2, what in probs:
             (corr_bad if kind == "corr" else prop_bad).append((key2, what, meta.get("real_line", line), h))
+    corr_bad += obj_bad
+    stats["object_configurations_from_model"] = n_cfg
     prop_bad.sort(key=lambda v: len(v[2]))          # report the smallest failing input of each kind
     corr_bad.sort(key=lambda v: len(v[2]))
     seen = set()
